@@ -43,6 +43,7 @@ struct Case {
         unsigned mu = 0, pause = 0, on = 0;
     } tm[2];
     unsigned audio_words = 0, audio_on = 0;
+    unsigned audio1_words = 0, audio1_on = 0; // the second audio port (the facade installs no audio callback on it)
     uint32_t n = 100;
     std::vector<Event> events;
     uint64_t slice_seed = 0;
@@ -221,6 +222,10 @@ void setup(Sys& s, const Case& c) {
         s.t->MMIOWrite(0x2C6, (uint16_t)(0x100 + k));
     if (c.audio_on)
         s.t->MMIOWrite(0x2BE, 1);
+    for (unsigned k = 0; k < c.audio1_words; ++k)
+        s.t->MMIOWrite(0x2C6 + 0x80, (uint16_t)(0x200 + k));
+    if (c.audio1_on)
+        s.t->MMIOWrite(0x2BE + 0x80, 1);
 }
 
 void apply_event(Sys& s, const Event& e) {
@@ -354,7 +359,7 @@ std::string encode(const Case& c) {
     for (int t = 0; t < 2; ++t)
         s += "timer " + vf::hex(t) + " " + vf::hex(c.tm[t].on) + " " + vf::hex(c.tm[t].mode) + " " + vf::hex(c.tm[t].start) + " " + vf::hex(c.tm[t].mu) + " " +
              vf::hex(c.tm[t].pause) + "\n";
-    s += "audio " + vf::hex(c.audio_on) + " " + vf::hex(c.audio_words) + "\n";
+    s += "audio " + vf::hex(c.audio_on) + " " + vf::hex(c.audio_words) + " " + vf::hex(c.audio1_on) + " " + vf::hex(c.audio1_words) + "\n";
     s += "n " + vf::hex(c.n) + " " + vf::hex(c.slice_seed) + "\n";
     for (auto& e : c.events)
         s += "event " + vf::hex(e.pos) + " " + vf::hex(e.kind) + " " + vf::hex(e.a) + " " + vf::hex(e.b) + "\n";
@@ -395,6 +400,8 @@ Case decode(const std::string& text) {
         } else if (t[0] == "audio") {
             c.audio_on = (unsigned)H(1);
             c.audio_words = (unsigned)H(2) % 17;
+            c.audio1_on = t.size() > 3 ? (unsigned)H(3) & 1 : 0;
+            c.audio1_words = t.size() > 4 ? (unsigned)H(4) % 17 : 0;
         } else if (t[0] == "n") {
             c.n = (uint32_t)std::min<uint64_t>(H(1), 300000);
             c.slice_seed = H(2);
@@ -458,6 +465,8 @@ Case build(uint64_t seed) {
     }
     c.audio_words = (unsigned)(s.chance(1, 2) ? s.below(17) : 0);
     c.audio_on = s.chance(1, 2);
+    c.audio1_words = (unsigned)(s.chance(1, 3) ? s.below(17) : 0);
+    c.audio1_on = s.chance(1, 3);
     c.n = (uint32_t)(s.chance(1, 3) ? 1 + s.below(200) : (s.chance(1, 2) ? 1 + s.below(5000) : 1 + s.below(20000)));
     if (s.chance(1, 12))
         c.n = (uint32_t)(66000 + s.below(140000)); // slices longer than 2^16 cycles (the idle loop makes them cheap)
@@ -504,6 +513,8 @@ Case minimise(const Case& c0, const std::function<bool(const Case&)>& still) {
         attempt([&](Case& t) { t.tm[0].on = 0; });
         attempt([&](Case& t) { t.audio_on = 0; });
         attempt([&](Case& t) { t.audio_words = 0; });
+        attempt([&](Case& t) { t.audio1_on = 0; });
+        attempt([&](Case& t) { t.audio1_words = 0; });
         attempt([&](Case& t) { t.fillers.clear(); });
         while (!c.fillers.empty()) {
             Case t = c;
@@ -626,6 +637,8 @@ vf::Result check(const Case& c) {
         vf::klass("a handler ran");
     if (audio_frames)
         vf::klass("audio frames delivered");
+    if (c.audio1_on && c.audio1_words)
+        vf::klass("second audio port transmitting (no audio callback installed)");
     if (c.idle != 1)
         vf::klass("idle self-branch");
     if (ones)
